@@ -19,6 +19,8 @@ CHECKS = {
              ref="DESIGN.md section 8 (C16)", note=ENGINE_NOTE),
  "C02": dict(text="Theorems (Coq, all admissible restart-free histories unless stated): c02_peek_and_offset_reads — (b) a peek returns exactly what the immediately following consuming read with the same arguments returns and (c) offset-addressed reads return only sub-ranges of entries appended to that topic, in append order (acceptors c02b_ok/c02c_ok over the model's trace); c02_batch_peek_then_consume, c02_subranges_any_state, c02_offset_read_changes_nothing hold in EVERY state; c02_queue_view_partial — (a) partially: peeks/offset reads change neither which entries consuming reads deliver nor any count (queue acceptors ignore them). The full erasure statement C02_full (also the NUMBER of entries a later budgeted read returns) is stated, not proved; it is decided on the implementation by a metamorphic run (every case with and without its non-consuming reads, results of the remaining ops must be identical). Reclamation bookkeeping clause: not modelled here (trackers are C12's subject).",
              ref="DESIGN.md section 8 (C02)", note=ENGINE_NOTE + " Partial for clause (a): see C02_full in coq/props/C02.v."),
+ "C06": dict(text="Proved (Coq): c06_recovery_complete_partial — for EVERY well-formed file image (any number of files, blocks of any extent incl. multi-unit, never-written blocks anywhere) the startup scan of model/Engine.v rebuilds for every topic exactly the entries its blocks hold, in file order. The whole-history statement C06_full (restarts at arbitrary points are invisible) is stated in coq/props/C06.v and not yet proved; it is decided per run by (1) the differential run of model vs real crate on histories with REOPEN (same process) and RESTART (fresh process) events, (2) the extracted queue acceptors over the implementation's traces (c01_ok+c15_ok with restart events left in for StrictlyAtOnce; c06alo_ok = no loss/reordering, re-delivery of a suffix allowed, for AtLeastOnce), (3) a metamorphic run on the implementation (history with vs without its restarts: same delivered stream per topic, same final counts). Clock behaviour between runs is not varied (file order = creation order is assumed by the model).",
+             ref="DESIGN.md section 8 (C06)", note=ENGINE_NOTE + " Partial: see C06_full. Three genuine defects found by this check were repaired (fix: 6016445, a9c79b9, 0e1f235)."),
  "C14": dict(text="Theorem c14_component_safe (Coq, all keys, no bound): the path component computed from any key is non-empty, not '.'/'..', free of '/' and NUL. The hand-written model is tied to the code on every run by a differential run of the real sanitize_namespace and of real instances built through every constructor, and the extracted acceptor safe_component is applied to every component the implementation produced.",
              ref="DESIGN.md section 8 (C14)", note="Trusted: Coq kernel, extraction (ExtrOcamlBasic), OCaml driver, python generators, the cfg(walrus_verif) accessor, Linux PathBuf::push semantics (modelled). No axioms."),
  "C25": dict(text="Theorems c25_roundtrip and c25_injective (Coq, every topic string and every u64 segment): parse_wal_key (wal_key topic n) = Some (topic, n). The model of format!/rsplitn/strip_prefix/u64::from_str is tied to the unmodified types.rs (compiled via #[path]) by a differential run including adversarial topics and raw decoder inputs.",
